@@ -56,7 +56,9 @@ def run(ctx):
                 "and decimal-weights (0.9, 1.2 ...; tolerance, judged by the oracle and the cross-format comparison only) streams, a scale stream (N in 30..120 rows, lopsided dimensions) and a many-columns case, sent to Coq only while the "
                 "literal stays small, else oracle-only (counted separately)), every call repeated under the "
                 "six report formats NaN, (0,False), (7,False), (-3,False), (2.5,False), plain 0 on both cube types; valid_count + plain + "
-                "propagation is excluded; a case = one (call, format) literal; non-trivial when the cube has a cell with rows of which "
+                "propagation is excluded; an int-weights stream (integer weights 0..250, sums crossing 128/256, narrow integer dtypes); the FORM of every argument varies "
+                "in about 60 % of the cases exactly as in C03 (dtype / layout / container; tags form:* in the distribution; same exclusions); "
+                "a case = one (call, format) literal; non-trivial when the cube has a cell with rows of which "
                 "some but not all are missing (the any/all distinction) or a cell whose valid weights sum to zero")
     ctx.trusted = list(core.STD_TRUSTED) + [
         "as C03 (NumPy primitives modelled; cubes beyond 1024 cells compared through theorem ffunc_A_direct)",
@@ -121,6 +123,8 @@ def run(ctx):
     for i in range(1500 if thorough else 110):
         one(ca.decimal_case(rng, absent=(i % 2 == 0)), "decimal-weights")
 
+    for i in range(900 if thorough else 70):
+        one(ca.int_weights_case(rng), "int-weights")
     for i in range(400 if thorough else 40):
         one(ca.scale_case(rng, decimal=(i % 3 == 2)), "scale")
     for i in range(10 if thorough else 1):
